@@ -282,10 +282,10 @@ def harnesses(tier, seed):
 
     def big():
         st = engine.Stats()
-        for n in ([4, 8, 16] if quick else [4, 5, 6, 8, 12, 16]):
+        for n in ([16] if quick else [4, 5, 6, 8, 12, 16]):
             st.merge(big_model(n, consts if quick else {"MaxCrashes": 2, "MaxFaults": 2}, engine.n_workers()))
         return st
     return [{"name": "model-conformance (every TLC edge replayed on the code)", "run": conf,
              "bound_text": "per-loader model N=2%s, <=1 crash, <=1 fault" % ("" if quick else ",3")},
             {"name": "model-up-to-16-loaders (TLC, counter abstraction)", "run": big,
-             "bound_text": "N in %s" % ([4, 8, 16] if quick else [4, 5, 6, 8, 12, 16])}]
+             "bound_text": "N in %s" % ([16] if quick else [4, 5, 6, 8, 12, 16])}]
